@@ -26,12 +26,16 @@ Retained(n, newest, maxBuf) == n > newest - maxBuf
 NewestOf(upl, t) == LET ns == { u.n : u \in { x \in upl : x.t = t } } IN IF ns = {} THEN -1 ELSE SetMax(ns)
 HasFile(listing, n) == \E i \in DOMAIN listing : listing[i].n = n
 HasFileWith(listing, n, h) == \E i \in DOMAIN listing : listing[i].n = n /\ listing[i].h = h
-\* the accepted uploads that violate C17.stored in an observation; byteExact: unshifted channel, timescale unchanged.
+\* the accepted uploads that violate C17.stored in an observation.  An upload record u = [t, n, dts, dur, h, bx]:
+\* n / dts / dur are the number and times the segment must be STORED under (on a shifted channel the renumbered /
+\* re-timed ones, see harness/drive/c17/shift.go; otherwise the uploaded ones), bx: the stored bytes must be the uploaded
+\* bytes (unshifted channel, timescale unchanged) - otherwise the stored file, decoded, must have that time and duration.
 \* tried: [t, n] of EVERY media upload sent so far, accepted or refused - the storage also makes room when an upload
 \* is refused later on, so "newest" is the highest number the track has tried to deliver (the weaker demand).
-NotStored(upl, tried, files, maxBuf, byteExact) ==
+HasFileLike(listing, n, dts, dur) == \E i \in DOMAIN listing : listing[i].n = n /\ listing[i].ok /\ listing[i].dts = dts /\ listing[i].dur = dur
+NotStored(upl, tried, files, maxBuf) ==
   { u \in upl : /\ Retained(u.n, NewestOf(tried, u.t), maxBuf)
-                /\ ~ (IF byteExact THEN HasFileWith(files[u.t], u.n, u.h) ELSE HasFile(files[u.t], u.n)) }
+                /\ ~ (IF u.bx THEN HasFileWith(files[u.t], u.n, u.h) ELSE HasFileLike(files[u.t], u.n, u.dts, u.dur)) }
 
 (* ---- C17.listed ----
    S elements arrive as [t, d, r] with t = -1 when the attribute is absent; the expansion is the list of
